@@ -169,7 +169,7 @@ def run_tlc(sc, specdir, module, cfg=None, workers=None, timeout=900, extra=(), 
     java = ["java", "-XX:+UseSerialGC" if (workers == 1 and os.environ.get("VERIF_SERIALGC", "1") == "1") else "-XX:+UseParallelGC", "-Xss256m"]
     if heap:
         java.append("-Xmx%s" % heap)
-    cmd = java + ["-cp", JAR, "tlc2.TLC", "-metadir", meta, "-workers", str(workers or NCPU)]
+    cmd = java + ["-cp", JAR, "tlc2.TLC", "-metadir", meta, "-workers", str(workers or NCPU), "-maxSetSize", "60000000"]
     if cfg:
         cmd += ["-config", cfg]
     if simulate:
